@@ -22,6 +22,16 @@ CLAIMS = {
             "step). Does not decide what user-supplied leaf filters/emitters do.",
             "custom MIR dataflow/path rules (rustc_private fact extractor + provenance, path counting, truth tables)",
             "3/C01"),
+    "C02": ("Decides on built MIR for every impl of Props in the workspace (24 for_each bodies, enumerated from the "
+            "facts): a Break from the visitor or an inner for_each is returned or ?-propagated and no visitor call can "
+            "follow it; every get/pull override is a forwarder, a keyed map lookup, left-then-right (And), None "
+            "(Empty) or an order-independent scan (macro props: no binary search over an array sorted by identifier); "
+            "the default get keeps the first match and stops; is_unique is true only for stores that cannot hold a "
+            "key twice, forwarders forward, And/arrays/slices/Option inherit false; Dedup is first-wins with its fast "
+            "path under is_unique(); erased bridge forwards once; views enumerate their own keys before inner props. "
+            "Lookup==first-enumerated then follows per impl; not decided: user Props impls, hash-map iteration order.",
+            "custom MIR dataflow rules (visitor/ControlFlow discipline, override coherence table, forwarding)",
+            "3/C02"),
 }
 
 REASONS_NOT_YET = "check not built yet (build in progress; DESIGN.md section 3 lists the planned rules)"
